@@ -51,8 +51,8 @@ class Exploration:
         if st == 'ok' and len(self.samples) < 6 and (d['tags'] or d['decisions']):
             self.samples.append({'tags': d['tags'], 'decisions': d['decisions'][:40], 'checks': [c[0] + ':' + c[1] for c in d['checks']][:12]})
 
-def explore(pool, harness, max_paths=20000, deadline=None, seed=0):
-    ex = Exploration(harness); t0 = time.time()
+def explore(pool, harness, label=None, max_paths=20000, deadline=None, seed=0):
+    ex = Exploration(label or harness); t0 = time.time()
     pending = []; inflight = 0
     rnd = random.Random(seed)
     work = [[]]
